@@ -111,7 +111,7 @@ func refGen(src, rel string, version bool) (res refResult) {
 type expEnt struct {
 	Data      []byte
 	Untouched bool   // not written at all: mtime must equal the original one
-	Mtime     int64  // original mtime (seconds) when Untouched
+	Mtime     int64  // original mtime (unix nanoseconds) when Untouched
 	Why       string // role of the path, used in violation keys
 }
 
@@ -133,7 +133,7 @@ type expectation struct {
 func expected(t treeSpec, cfg runCfg) expectation {
 	ex := expectation{Files: map[string]expEnt{}, Gone: map[string]string{}}
 	for p, e := range t.Files {
-		ex.Files[p] = expEnt{Data: e.Data, Untouched: true, Mtime: e.Mtime, Why: "other"}
+		ex.Files[p] = expEnt{Data: e.Data, Untouched: true, Mtime: e.ns(), Why: "other"}
 	}
 	var paths []string
 	for p := range t.Files {
@@ -151,7 +151,7 @@ func expected(t treeSpec, cfg runCfg) expectation {
 		switch {
 		case strings.HasSuffix(p, ".templ"):
 			sib := strings.TrimSuffix(p, ".templ") + "_templ.go"
-			if s, ok := t.Files[sib]; ok && cfg.has("lazy") && s.Mtime > e.Mtime {
+			if s, ok := t.Files[sib]; ok && cfg.has("lazy") && s.ns() > e.ns() {
 				x := ex.Files[sib]
 				x.Why = "lazy-up-to-date-sibling"
 				ex.Files[sib] = x
@@ -214,7 +214,7 @@ func verify(t treeSpec, cfg runCfg, ex expectation, snap map[string]snapEnt, exi
 			} else {
 				add("file-modified:"+e.Why, p, firstDiff(s.Data, e.Data))
 			}
-		case e.Untouched && s.Mtime != e.Mtime*1e9:
+		case e.Untouched && s.Mtime != e.Mtime:
 			add("file-rewritten:"+e.Why, p, "same bytes but mtime changed")
 		}
 	}
@@ -474,7 +474,7 @@ func lazyTree(t treeSpec, r *rand.Rand) (treeSpec, map[string]int) {
 		case "sibling-of-bad-file":
 			m = t0 - 100 // never equal to its template's mtime
 		}
-		n.Files[p] = ent{e.Data, m}
+		n.Files[p] = ent{Data: e.Data, Mtime: m}
 	}
 	counts := map[string]int{}
 	var templs []string
@@ -487,22 +487,37 @@ func lazyTree(t treeSpec, r *rand.Rand) (treeSpec, map[string]int) {
 	for _, p := range templs {
 		e := n.Files[p]
 		edited := append(append([]byte{}, e.Data...), []byte(fmt.Sprintf("\ntempl Added%d() {\n\t<p>added %d</p>\n}\n", r.Intn(1000), r.Intn(1000)))...)
-		switch r.Intn(8) {
+		sib := strings.TrimSuffix(p, ".templ") + "_templ.go"
+		switch r.Intn(10) {
 		case 0:
-			n.Files[p] = ent{edited, t0 + 3600}
+			n.Files[p] = ent{Data: edited, Mtime: t0 + 3600}
 			counts["edited_forward"]++
 		case 1:
-			n.Files[p] = ent{edited, t0 - 3600}
+			n.Files[p] = ent{Data: edited, Mtime: t0 - 3600}
 			counts["edited_backward"]++
 		case 2:
-			n.Files[p] = ent{e.Data, t0 + 7200}
+			n.Files[p] = ent{Data: e.Data, Mtime: t0 + 7200}
 			counts["touched_forward"]++
+		case 8:
+			// edited within the same wall-clock second as the sibling was generated, but later
+			if s, ok := n.Files[sib]; ok {
+				n.Files[sib] = ent{Data: s.Data, Mtime: s.Mtime, Nanos: 100e6}
+				n.Files[p] = ent{Data: edited, Mtime: s.Mtime, Nanos: 600e6}
+				counts["edited_same_second_later"]++
+			}
+		case 9:
+			// same second, but the sibling is the later one: -lazy must leave it alone
+			if s, ok := n.Files[sib]; ok {
+				n.Files[sib] = ent{Data: s.Data, Mtime: s.Mtime, Nanos: 600e6}
+				n.Files[p] = ent{Data: edited, Mtime: s.Mtime, Nanos: 100e6}
+				counts["edited_same_second_earlier"]++
+			}
 		case 3:
 			delete(n.Files, p)
 			counts["deleted"]++
 		case 4:
 			np := strings.TrimSuffix(p, ".templ") + "_new.templ"
-			n.Files[np] = ent{edited, t0 + 50}
+			n.Files[np] = ent{Data: edited, Mtime: t0 + 50}
 			counts["added"]++
 		default:
 			counts["untouched"]++
@@ -662,7 +677,7 @@ func Run(c *core.Ctx) {
 func treeHash(t treeSpec) string {
 	var parts []string
 	for p, e := range t.Files {
-		parts = append(parts, p+"="+sum(e.Data)+fmt.Sprint(e.Mtime))
+		parts = append(parts, p+"="+sum(e.Data)+fmt.Sprint(e.ns()))
 	}
 	sort.Strings(parts)
 	return sum([]byte(t.Root + strings.Join(t.Dirs, ",") + strings.Join(parts, "\n")))
